@@ -22,7 +22,7 @@ func caseRng(c *run.Ctx, i int) *rand.Rand {
 
 // C01 — authorization code single-use; replay kills the family.
 func C01(c *run.Ctx) {
-	n := c.N(400, 20000)
+	n := c.N(400, 50000)
 	c.Need("replays_with_family", 1)
 	c.Need("redeem_ok", 1)
 	for i := 0; i < n; i++ {
@@ -86,7 +86,7 @@ func C01(c *run.Ctx) {
 
 // C04 — refresh rotation, reuse kills the family.
 func C04(c *run.Ctx) {
-	n := c.N(400, 20000)
+	n := c.N(400, 50000)
 	c.Need("reuse_presentations", 1)
 	c.Need("refresh_ok", 1)
 	for i := 0; i < n; i++ {
@@ -176,7 +176,7 @@ func C04(c *run.Ctx) {
 
 // C08 — revocation effective, complete, owner-only.
 func C08(c *run.Ctx) {
-	n := c.N(300, 15000)
+	n := c.N(300, 40000)
 	c.Need("revocations_accepted", 1)
 	for i := 0; i < n; i++ {
 		id := fmt.Sprintf("s%d-h%d", c.Shard, i)
@@ -237,7 +237,7 @@ func C08(c *run.Ctx) {
 // c09hist is the history half of C09: long histories over all grant types, the
 // sweep is the main act.
 func c09hist(c *run.Ctx) {
-	n := c.N(150, 6000)
+	n := c.N(150, 12000)
 	for i := 0; i < n; i++ {
 		id := fmt.Sprintf("s%d-h%d", c.Shard, i)
 		if c.Only != "" && c.Only != id {
